@@ -117,6 +117,12 @@ def explore(driver, rep, part=None, max_depth=None, max_states=None,
     """
     global _DRIVER
     part = part or driver.name
+    # safety nets: a change to desper may make a space that closes on the
+    # pinned tree unbounded; a cap that is hit is reported, never hidden
+    if max_states is None:
+        max_states = 3000000
+    if time_budget is None:
+        time_budget = 900
     workers = workers or env.WORKERS
     t0 = time.time()
     _DRIVER = driver
